@@ -8,3 +8,10 @@ python3-vt -c "import z3; s=z3.Solver(); x=z3.Int('x'); s.add(x>1, x<2); assert 
 echo '(check-sat)' | /usr/bin/z3 -in >/dev/null && echo 'z3 4.8.12 ok'
 echo '(set-logic ALL)(check-sat)' | /usr/bin/cvc5 --lang=smt2 >/dev/null && echo 'cvc5 ok'
 mkdir -p evidence replays
+# Lean lemmas (Gibbs inequality / word count / permutation counts): compile once, leave a stamp with the source hash
+for f in Entropy.lean Perm.lean; do
+  h=$(sha256sum lemmas/$f | cut -d' ' -f1)
+  if [ "$(cat lemmas/.$f.ok 2>/dev/null)" != "$h" ]; then
+    if out=$(timeout 1500 lean lemmas/$f 2>&1) && ! echo "$out" | grep -qi "error\|sorry"; then echo "$h" > lemmas/.$f.ok; echo "lean $f ok"; else echo "lean $f FAILED: $out" | head -5; fi
+  fi
+done
